@@ -507,7 +507,9 @@ def _create_params(parent, argslist_list):
     if first.type in ('name', 'fpdef'):
         return [Param([first], parent)]
     elif first == '*':
-        return [first]
+        # Either a bare star or already regrouped children (`*` followed by a
+        # comma), which must be kept as they are.
+        return argslist_list
     else:  # argslist is a `typedargslist` or a `varargslist`.
         if first.type == 'tfpdef':
             children = [first]
